@@ -28,6 +28,7 @@ layout: if it then holds the signature says .../interactions:keys-in-different-o
 plain-dict).
 """
 from collections import Counter
+import re
 
 ID    = "C10"
 LEVEL = "exploration"
@@ -43,7 +44,11 @@ RULE  = ("a case is one seeded environment (interaction kind x action kind x rew
          "against its own environment; distinct = distinct (member kinds, chain, read modes); in ~64% of the environments the "
          "interactions do not list their keys in the constructors' insertion order (every interaction an order of its own / one "
          "interaction differs / two keys exchanged in some / one other order for all) and ~30% are handed over as plain dicts; "
-         "the key-order mode and plain/Interaction are part of the distinctness key")
+         "the key-order mode and plain/Interaction are part of the distinctness key; "
+         "a BinaryReward may reward an action of the same structure that the interaction does not offer (every offered action earns 0); "
+         "over lazy dense rows 3/4 of the environments key their reward/feedback functions (and, for rows without headers, give the "
+         "logged action) by the equal tuples or lists instead of lazy rows, and 35% of the logs over plain dense vectors give the logged "
+         "action as a lazy row")
 PLAN  = {"quick":    {"shards": 16, "cases": 32000,   "timeout": 600,  "budget_s": 75},
          "thorough": {"shards": 16, "cases": 1200000, "timeout": 3000, "budget_s": 780}}
 REQUIRED = ["oracle.vector.rewards.function", "oracle.vector.rewards.list", "oracle.vector.feedbacks",
@@ -57,7 +62,10 @@ REQUIRED = ["oracle.vector.rewards.function", "oracle.vector.rewards.list", "ora
             "oracle.keyorder.mixed.shortcuts-finalized", "oracle.keyorder.mixed.collection-read", "oracle.keyorder.non-constructor",
             "layout.plain-dict",
             "changed.Repr", "changed.Flatten", "changed.Sparsify", "changed.Densify", "changed.Noise",
-            "changed.Finalize", "changed.Batch"]
+            "changed.Finalize", "changed.Batch",
+            "oracle.tuple-keyed-function.lazy-dense-actions.Finalize", "oracle.tuple-logged-action.lazy-dense-actions.Finalize",
+            "oracle.lazy-dense-logged-action.plain-actions.Finalize",
+            "oracle.binary-argmax-not-offered.Repr", "oracle.binary-argmax-not-offered.Finalize"]
 ASSUMPTIONS = [
     "only action/context noise is configured (reward noise changes rewards by design); Cycle and Binary are not part of the property",
     "an interaction whose actions collide into equal values right after hashing Densify(action=True) or action Noise is discarded (counted in discarded.collision): the i-th action is then ill-defined for a reward function; after Densify(method='lookup') this is excused only when the environment itself presented more feature names than n_feats (counted in skipped.lookup_overfull)",
@@ -67,6 +75,7 @@ ASSUMPTIONS = [
     "action sets hold distinct actions of one homogeneous structure (same length, nested/categorical entries at the same positions), the regime Flatten and Repr document; Sparsify is not combined with empty (continuous) action sets",
     "reward functions are compared only where the original function is defined on the original action (e.g. HammingReward on a non-iterable action raises before any filter and is skipped, counted in skipped.undefined_before)",
     "membership of the logged action in the new action set is Python equality, the relation coba's own reward classes use",
+    "a reward function / logged action may hold an action as another container (tuple, list, lazy row) than the action set does only where the two are equal under Python == before any filter ran (lazy rows equal lists and tuples of their values; a list never equals a tuple, so plain vectors are always keyed by their own type); a tuple/list stands for a lazy row as the logged action only when the rows carry no headers",
     "over one environment a deterministic filter (everything but action Noise and hashing Densify) must re-represent equal actions equally and different actions differently; this is what makes 'the i-th action' the same action before and after",
     "all interactions of one environment carry the same key set (only the insertion order varies, and dict vs Interaction subclass); keys are always looked up by name by the oracle",
     "for an empty (continuous) action set the i-th action is a numeric probe: R'(p) == R(p) for three probe values",
@@ -140,6 +149,8 @@ def build_reward(rs, actions):
     k = rs["k"]
     if k == "list":     return list(rs["v"])
     if k == "binary":   return BinaryReward(actions[rs["i"]], rs["val"]) if rs["val"] != 1 else BinaryReward(actions[rs["i"]])
+    if k == "binary-absent":       # the rewarded action is not among the offered ones: every offered action earns 0
+        return BinaryReward(dec(rs["a"]), rs["val"]) if rs["val"] != 1 else BinaryReward(dec(rs["a"]))
     if k == "discrete-pair":      return DiscreteReward(list(actions), list(rs["v"]))
     if k == "discrete-pair-perm": return DiscreteReward([actions[i] for i in rs["o"]], [rs["v"][i] for i in rs["o"]])
     if k == "discrete-map":       return DiscreteReward({actions[i]: rs["v"][i] for i in rs["o"]})
@@ -262,9 +273,17 @@ AKINDS_COLL = ["sparse_ind", "sparse_ind", "sparse_ind", "sparse", "sparse", "la
                "onehot", "str", "dense", "int", "nested", "lazy_dense", "sparse_nested"]
 HASHABLE = {"int", "float", "str", "cat", "onehot"}
 
-def gen_reward_spec(rng, rkind, n, akind, acts):
+def gen_reward_spec(rng, rkind, n, akind, acts, sh=None):
     v = rng.sample(RVALS, n) if rng.random() < .85 else [rng.choice(RVALS) for _ in range(n)]
     o = list(range(n)); rng.shuffle(o)
+    if rkind == "binary-absent":
+        # an action of the same structure (same levels / length / feature names) which this interaction does not offer
+        have = {canon_eq(dec(a)) for a in acts}
+        for _ in range(30):
+            a = gen_one_action(rng, sh)
+            if canon_eq(dec(a)) not in have:
+                return {"k": "binary-absent", "a": a, "val": rng.choice([1, 1, 0.5, 3])}
+        rkind = "binary"                      # the set offers every action there is
     if rkind == "list":   return {"k": "list", "v": v}
     if rkind == "binary": return {"k": "binary", "i": rng.randrange(n), "val": rng.choice([1, 1, 0.5, 3])}
     if rkind == "discrete-pair": return {"k": rkind, "v": v}
@@ -279,7 +298,7 @@ def gen_reward_spec(rng, rkind, n, akind, acts):
     raise ValueError(rkind)
 
 def reward_kinds_for(akind):
-    ks = ["list", "list", "binary", "binary", "discrete-pair", "discrete-pair-perm", "discrete-subset", "callable", "callable"]
+    ks = ["list", "list", "binary", "binary", "binary-absent", "discrete-pair", "discrete-pair-perm", "discrete-subset", "callable", "callable"]
     if akind in HASHABLE: ks += ["discrete-map", "discrete-map"]
     if akind in ("str", "cat"): ks += ["hamming"]
     if akind in ("int", "float"): ks += ["l1"]
@@ -356,6 +375,17 @@ def gen_env(rng, ikind=None, akind=None, ns=0, akinds=AKINDS):
         if akind is None or akind == "none": akind = rng.choice(akinds)
         sh = gen_shape(rng, akind, ns)
         spec["akind"] = akind
+        # equal values of another container type: a lazy dense row equals the list and the tuple holding its values, so whoever
+        # built the reward function / wrote the log may have keyed it by plain tuples or lists (keyform 't' / 'l': the keys of
+        # reward and feedback functions and the logged action), or the log reader hands the logged action over as a lazy row
+        # while the action set holds plain vectors (lazy_action).  A plain tuple cannot carry the headers of a lazy row, which
+        # Sparsify turns into feature names: the logged action is re-typed only where the rows have no headers (drawn more
+        # often then); reward keys are only ever compared, so they always are.
+        if akind == "lazy_dense":
+            spec["keyform"] = rng.choice([None, "t", "t", "l"])
+            if spec["keyform"] and ikind == "logged" and rng.random() < .7: sh["wrap"] = "ld0"
+            spec["keyform_action"] = bool(spec["keyform"]) and sh["wrap"] == "ld0"
+        spec["lazy_action"] = akind == "dense" and ikind == "logged" and rng.random() < .35
         vary = rng.choice(["constant", "constant", "varying", "first2same", "resized"])
         n_act = rng.choice([1, 2, 2, 3, 3, 4, 5])
         base = gen_action_set(rng, sh, n_act)
@@ -366,7 +396,7 @@ def gen_env(rng, ikind=None, akind=None, ns=0, akinds=AKINDS):
             else: acts.append(gen_action_set(rng, sh, n_act))
         spec["vary"] = vary
         rkind = rng.choice(reward_kinds_for(akind))
-        rws = [gen_reward_spec(rng, rkind, len(a), akind, a) for a in acts]
+        rws = [gen_reward_spec(rng, rkind, len(a), akind, a, sh) for a in acts]
     spec["actions"] = acts
     spec["rkind"] = rkind
     ck = rng.choice(CKINDS)
@@ -383,7 +413,7 @@ def gen_env(rng, ikind=None, akind=None, ns=0, akinds=AKINDS):
     if ikind == "grounded":
         fk = rng.choice([k for k in reward_kinds_for(akind) if k not in ("l1", "hamming")])
         spec["fkind"] = fk
-        spec["feedbacks"] = [gen_reward_spec(rng, fk, len(a), akind, a) for a in acts]
+        spec["feedbacks"] = [gen_reward_spec(rng, fk, len(a), akind, a, sh) for a in acts]
         spec["extra"] = [{"userid": rng.randint(0, 3), "isnormal": rng.random() < .5} for _ in range(n_int)]
     if ikind in ("logged", "logged_plain"):
         has_p = rng.random() < .75     # a log either records propensities or it does not (same keys in every interaction)
@@ -517,6 +547,8 @@ def build(spec):
         # reward functions are keyed by equal but distinct action objects (what a reader / a user building rewards
         # separately produces) in about half of the cases: an in-place change of the offered actions must not go unnoticed
         racts = [dec(a) for a in enc_acts] if (spec.get("seed_", 0) + j) % 2 == 0 else acts
+        kf = spec.get("keyform")
+        if kf: racts = [reform(dec(a), kf) for a in enc_acts]
         rw = build_reward(spec["rewards"][j], racts) if "rewards" in spec else None
         if ik in ("sim", "continuous"):
             it = SimulatedInteraction(ctx, acts, rw)
@@ -532,6 +564,8 @@ def build(spec):
             a = acts[lg["i"]] if ik == "logged" else dec(enc_acts[lg["i"]])
             if ik == "logged" and spec.get("copy_action", True) and not isinstance(a, (int, float, str)):
                 a = dec(enc_acts[lg["i"]])          # an equal but distinct object, as a log file reader would produce
+            if ik == "logged" and kf and spec.get("keyform_action"): a = reform(dec(enc_acts[lg["i"]]), kf)
+            if ik == "logged" and spec.get("lazy_action"): a = reform(dec(enc_acts[lg["i"]]), "lazy")
             it = LoggedInteraction(ctx, a, lg["r"], lg["p"], **kw)
         ko = spec["korder"][j] if spec.get("korder") else None
         if ko:
@@ -540,6 +574,12 @@ def build(spec):
         if spec.get("plain"): it = dict(it)
         out.append(it)
     return out
+
+def reform(v, form):
+    """the same dense vector in another container: 't' tuple, 'l' list, 'lazy' LazyDense (equal to v wherever v is lazy / form is lazy)"""
+    from coba.pipes.rows import LazyDense
+    vals = list(v)
+    return tuple(vals) if form == "t" else vals if form == "l" else LazyDense(vals)
 
 def layout_of(rows):
     """'ctor-like' (one insertion order for all), or 'mixed' (the interactions list their keys in different orders)"""
@@ -627,6 +667,8 @@ def rtype(r, actions=None):
                 elif any(not _eq(x, y) for x, y in zip(ra, actions)): extra = ",other-order"
         except Exception: pass
         return f"DiscreteReward[{extra[1:]}]" if extra else "function"
+    if n == "BinaryReward" and actions and not any(_eq(r._argmax, a) for a in actions):
+        return "BinaryReward[argmax-not-offered]"
     return "function"
 
 def _eq(a, b):
@@ -775,7 +817,9 @@ def check_prefix(orig, outs, step, chain, prev_rows, note, viol, info, sigfs=Non
         fwd, bwd = {}, {}
         for j, (o0, o1) in enumerate(zip(orig, rows)):
             pairs = list(zip(o0.get("actions") or [], o1.get("actions") or []))
-            if "action" in o0 and "action" in o1 and o0.get("actions"): pairs.append((o0["action"], o1["action"]))
+            # (not when the generator handed the logged action over in another container type than the members of the action
+            #  set: then one action has two representations before any filter ran)
+            if "action" in o0 and "action" in o1 and o0.get("actions") and not info.get("mixed_containers"): pairs.append((o0["action"], o1["action"]))
             for a, b in pairs:
                 ca, cb = canon_eq(a), canon(b)
                 note("oracle.representation.consistent")
@@ -827,9 +871,23 @@ def _attribute_raise(fs, prev_rows):
             return None          # the logged action's value cannot be encoded even as an ordinary member of an action set
         for field, keys in groups.items():
             if any(k in prev_rows[0] for k in keys) and not raises(_strip(prev_rows, keys)): return field
+        if not raises(_strip(prev_rows, ("rewards", "feedbacks"))): return "rewards+feedbacks"
         return "rewards+action"
     except Exception:
         return "rewards+action"
+
+def _rtype_rows(rows, field):
+    """reward kind named in the signature of a filter that raised: of the first interaction, or the not-offered BinaryReward
+    of a later one (the raise may come from any interaction)"""
+    if field not in ("rewards", "feedbacks", "rewards+feedbacks"): return "logged"
+    f0 = field.split("+")[0]
+    p0 = rows[0] if rows else {}
+    rt = rtype(p0.get(f0), p0.get("actions"))
+    if rt == "function":
+        for r in rows:
+            for f in field.split("+"):
+                if rtype(r.get(f), r.get("actions")) == "BinaryReward[argmax-not-offered]": return "BinaryReward[argmax-not-offered]"
+    return rt
 
 def _note_bare_raise(ctx, note, fs, e, p0):
     """a filter that raises on the bare contexts/actions as well: outside the statement; tallied by raise site"""
@@ -863,7 +921,8 @@ def _stepwise(spec, chain, ctx, note, viol, tag=()):
     """every prefix of the chain (fresh filter objects, one environment) is itself a chain and is checked against the
     untouched originals.  Returns {ok, orig, final_rows, info}; ok = every step ran and no prefix violated."""
     orig = build(spec)
-    info = {"logged_index": [lg["i"] for lg in spec["logged"]] if spec["ikind"] == "logged" else None, "changed": False, "dead": set()}
+    info = {"logged_index": [lg["i"] for lg in spec["logged"]] if spec["ikind"] == "logged" else None, "changed": False, "dead": set(),
+            "mixed_containers": bool(spec.get("keyform_action") or spec.get("lazy_action"))}
     base_key = (spec["ikind"], spec["akind"], spec["rkind"], spec["fkind"], spec["vary"], spec.get("via"), spec["ckind"] in ("cat", "dense_cat", "sparse_cat"),
                 spec.get("kmode", "ctor"), bool(spec.get("plain"))) + tuple(tag)
     if spec.get("plain"): note("layout.plain-dict")
@@ -886,12 +945,13 @@ def _stepwise(spec, chain, ctx, note, viol, tag=()):
                 # the filter raises on the bare contexts/actions too: not a statement about rewards (reported, not judged)
                 _note_bare_raise(ctx, note, fs, e, p0)
                 ok = False; break
-            rt = rtype(p0.get(field), p0.get("actions")) if field in ("rewards", "feedbacks") else "logged"
+            rt = _rtype_rows(prev_rows, field)
             af = aform(p0["actions"][0]) if p0.get("actions") else "none"
             viol.append((f"{fsig(fs, field)}/filter/{field}:{rt}/mode=raise:{type(e).__name__}",
                          f"{fname(fs)} (step {step+1} of {[fname(x) for x in chain]}) raised {e!r} on {af} actions {p0.get('actions')!r}, {field} {p0.get(field)!r}"))
             ok = False; break
         rows = check_prefix(orig, cur, step, chain, prev_rows, note, viol, info)
+        _note_features(spec, fs["f"], prev_rows, info, note)
         # the layout of the interactions ENTERING this step: do they list their keys in different insertion orders?
         if layout_of(prev_rows) == "mixed":
             note("oracle.keyorder.mixed"); note("oracle.keyorder.mixed." + fs["f"])
@@ -905,6 +965,27 @@ def _stepwise(spec, chain, ctx, note, viol, tag=()):
         prev_rows = rows
         final_rows = rows
     return {"ok": ok, "orig": orig, "final_rows": final_rows, "info": info}
+
+def _note_features(spec, fname_, prev_rows, info, note):
+    """counts the judged steps whose INPUT had one of the structural features the generator adds on purpose"""
+    p0 = prev_rows[0] if prev_rows else {}
+    acts = p0.get("actions")
+    if not acts: return
+    lazy_acts = aform(acts[0]) == "lazy-dense"
+    if spec.get("keyform") == "t" and lazy_acts:
+        if any(callable(p0.get(f)) for f in ("rewards", "feedbacks")): note("oracle.tuple-keyed-function.lazy-dense-actions." + fname_)
+        if "action" in p0 and isinstance(p0["action"], tuple): note("oracle.tuple-logged-action.lazy-dense-actions." + fname_)
+    if spec.get("lazy_action") and "action" in p0 and aform(p0["action"]) == "lazy-dense" and not lazy_acts:
+        note("oracle.lazy-dense-logged-action.plain-actions." + fname_)
+    for f in ("rewards", "feedbacks"):
+        if rtype(p0.get(f), acts) == "BinaryReward[argmax-not-offered]" and info.get("changed"):
+            note("oracle.binary-argmax-not-offered." + fname_); break
+
+def _with_keyform(spec):
+    """the same case with reward keys / logged action in the very container type of the offered actions"""
+    def one(ms): return dict(ms, keyform=None, keyform_action=False, lazy_action=False)
+    if spec.get("collection"): return dict(spec, members=[one(ms) for ms in spec["members"]])
+    return one(spec)
 
 def _with_layout(spec, korder, plain):
     """the same case with the constructors' key order (korder=False) and/or as Interaction objects (plain=False)"""
@@ -929,22 +1010,34 @@ def _coarse(sig):
 def check_case(spec, ctx=None):
     """judges the case; when something is violated and the interactions were not laid out the way the Interaction
     constructors lay them out, counterfactual runs (same case, constructor layout) decide -- for the signature only --
-    whether the layout is what triggers the violation"""
+    whether the layout is what triggers the violation.  The same is done for reward keys / logged actions given in another
+    container type than the offered actions (keyform, lazy_action)."""
     viol = _check_case(spec, ctx)
+    if not viol: return viol
     members = spec["members"] if spec.get("collection") else [spec]
     has_ko = any(ms.get("korder") and any(ms["korder"]) for ms in members)
     has_pl = any(ms.get("plain") for ms in members)
-    if not viol or not (has_ko or has_pl): return viol
+    forms = {ms["keyform"] for ms in members if ms.get("keyform")}
+    kfq = ([f"keyed-by:{'tuple' if 't' in forms else 'list'}/actions:lazy-dense"] if forms else []) + \
+          (["logged-action:lazy-dense/actions:plain-dense"] if any(ms.get("lazy_action") for ms in members) else [])
+    kf_hit = set()
+    if kfq:
+        try: kf_hit = {s for s, _ in viol} - {s for s, _ in _check_case(_with_keyform(spec), None)}
+        except Exception: pass
     def sigs(korder, plain):
         try: return {s for s, _ in _check_case(_with_layout(spec, korder, plain), None)}
         except Exception: return None
+    rest = [s for s, _ in viol if s not in kf_hit]
     mixed = any(layout_of(build(ms)) == "mixed" for ms in members)
     kq = "keys-in-different-orders" if mixed else "keys-not-in-constructor-order"
-    without_ko = sigs(False, True) if has_ko else None
-    without_pl = sigs(True, False) if has_pl else None
-    without_both = sigs(False, False) if (has_ko and has_pl) else None
+    without_ko = sigs(False, True) if (has_ko and rest) else None
+    without_pl = sigs(True, False) if (has_pl and rest) else None
+    without_both = sigs(False, False) if (has_ko and has_pl and rest) else None
     out = []
     for s, w in viol:
+        if s in kf_hit:
+            s = re.sub(r":DiscreteReward\[[^\]]*\]", ":function", s)       # which keys the function has is what matters here, not their order
+            out.append((s + "/" + "+".join(kfq), f"[holds when reward keys / logged action come in the container type of the offered actions] {w}")); continue
         q = None
         if without_ko is not None and s not in without_ko: q = kq
         elif without_pl is not None and s not in without_pl: q = "plain-dict"
@@ -988,6 +1081,7 @@ def _check_case(spec, ctx=None):
             fchain = chain + [{"f": "Finalize", "safe": True}]
             before = len(viol)
             check_prefix(orig, fin, len(fchain) - 1, fchain, final_rows, note, viol, info)
+            _note_features(spec, "Finalize", final_rows, info, note)
             note("oracle.shortcuts.finalized")
             if layout_of(final_rows) == "mixed": note("oracle.keyorder.mixed.shortcuts-finalized")
             if info["changed"]: note("changed.Finalize")
@@ -997,7 +1091,7 @@ def _check_case(spec, ctx=None):
             field = _attribute_raise(ffs, final_rows)
             if field is None: _note_bare_raise(ctx, note, ffs, e, p0)
             else:
-                rt = rtype(p0.get(field), p0.get("actions")) if field in ("rewards", "feedbacks") else "logged"
+                rt = _rtype_rows(final_rows, field)
                 viol.append((f"BatchSafe(Finalize)/filter/{field}:{rt}/mode=raise:{type(e).__name__}",
                              f"reading Environments[...][0] after {[fname(f) for f in chain]} raised {e!r}"))
     return _dedup(viol)
@@ -1081,6 +1175,8 @@ def check_collection(spec, ctx=None):
         fchain = chain + ([FIN] if j["mode"] != "raw" else [])
         pre = f"several-environments/read={j['where']}/"
         sigfs = chain[-1] if j["mode"] == "raw" else {"f": "Then", "inner": chain[-1]}
+        if j["mode"] != "raw" and j["err"] is not None and _alone_finalized(members[k], r, chain, FIN):
+            viol.extend(r["alone_fin"]); note("collection.read_unjudged"); continue
         if j["err"] is not None:
             e = j["err"]
             if j["mode"] != "raw" and _attribute_raise(FIN, r["final_rows"]) is None:
@@ -1088,9 +1184,11 @@ def check_collection(spec, ctx=None):
             viol.append((pre + f"{fsig(sigfs, 'rows')}/mode=raise:{type(e).__name__}",
                          f"reading environment {k} ({j['mode']}) of {len(members)} after {[fname(f) for f in chain]} raised {e!r}; alone it reads fine")); continue
         info = {"logged_index": r["info"]["logged_index"], "changed": False, "dead": set(r["info"]["dead"]),
-                "lookup_overfull": r["info"].get("lookup_overfull", False)}
+                "lookup_overfull": r["info"].get("lookup_overfull", False), "mixed_containers": r["info"].get("mixed_containers", False)}
         mine = []
         check_prefix(r["orig"], j["outs"], len(fchain) - 1, fchain, r["final_rows"], note, mine, info, sigfs)
+        if mine and j["mode"] != "raw" and _alone_finalized(members[k], r, chain, FIN):
+            viol.extend(r["alone_fin"]); note("collection.read_unjudged"); continue
         note("oracle.collection.read")
         note("oracle.collection.read." + j.get("detail", j["where"]).replace(" ", "-"))
         note("oracle.collection.read." + j["mode"])
@@ -1112,6 +1210,29 @@ def check_collection(spec, ctx=None):
         ctx.case(("collection", tuple((ms["ikind"], ms["akind"], ms["rkind"]) for ms in members), tuple(fname(f) for f in chain),
                   tuple(sorted({(j["where"], j["mode"]) for j in jobs}))), nontrivial=any_changed)
     return _dedup(viol)
+
+def _alone_finalized(ms, r, chain, FIN):
+    """a finalized read of a collection failed: does the member alone (same chain as fresh filter objects, then
+    BatchSafe(Finalize)) fail as well?  Then what is wrong is not about the collection and is reported under the
+    single-environment signatures (cached in r['alone_fin']; [] = alone it holds)."""
+    if "alone_fin" in r: return r["alone_fin"]
+    v = []
+    fchain = chain + [FIN]
+    try:
+        cur = build(ms)
+        for g in chain: cur = list(make_filter(g).filter(cur))
+        fin = list(make_filter(FIN).filter(cur))
+        info = dict(r["info"], dead=set(r["info"]["dead"]))
+        check_prefix(r["orig"], fin, len(fchain) - 1, fchain, r["final_rows"], (lambda *a, **k: None), v, info)
+    except Exception as e:
+        p0 = r["final_rows"][0] if r["final_rows"] else {}
+        field = _attribute_raise(FIN, r["final_rows"])
+        if field is not None:
+            rt = _rtype_rows(r["final_rows"], field)
+            v.append((f"BatchSafe(Finalize)/filter/{field}:{rt}/mode=raise:{type(e).__name__}",
+                      f"reading the environment alone through BatchSafe(Finalize) after {[fname(f) for f in chain]} raised {e!r}"))
+    r["alone_fin"] = v
+    return v
 
 class ListEnvAdapter:
     """a minimal Environment: read() yields freshly built interactions"""
